@@ -3,6 +3,7 @@ Model/C13: executable model of cflib's numeric wire codecs.
 `fp16_to_float` itself is the statement-by-statement translation in Gen/C13 (Tie A).  No Mathlib.
 -/
 import CfVerif.Base.Struct
+import CfVerif.Base.Py
 import CfVerif.Gen.C13
 namespace CfVerif.C13
 open CfVerif
@@ -37,5 +38,291 @@ def fp16ToFloatLive (v : Int) : Except PyErr Num :=
   if e == 0 && f == 0 then .ok (.int (Gen.C13.shl s 31))
   else if e == 31 then .ok (.int (Gen.C13.pyOr (Gen.C13.pyOr (Gen.C13.shl s 31) 0x7f800000) (Gen.C13.shl f 13)))
   else fp16ToFloat v
+
+/-! ## Quaternion compression (`compress_quaternion` / `decompress_quaternion`)
+
+The code works on binary64 numbers (numpy).  The model separates
+* the **integer part**: scan for the largest component, sign bits, and the bit packing
+  `comp = (comp << 10) | (negbit << 9) | mag` / its unpacking (Gen: `cqPush`, `dqMag`, `dqNegbit`, `dqNext`,
+  `dqLargest`) — shared verbatim by the executable model here and by the real-number functions
+  `compressR`/`decompressR` of Proofs/C13Quat that the property theorem is about; from
+* the **numeric part** `mag = int(511 * (|q_i|/‖q‖ / (1/√2)) + 0.5)`, which the executable model computes
+  *exactly* for a quaternion with integer components (any float quaternion is an integer quaternion after
+  scaling by a power of two, and the codec is scale invariant): `quatMag`.
+`compressR_int` (Proofs/C13Quat) proves that the two agree on integer quaternions. -/
+
+/-- `i_largest = 0; for i in range(1, 4): if abs(q[i]) > abs(q[i_largest]): i_largest = i` on the
+absolute values `a` (strict `>`: ties keep the earlier index) -/
+def largestIdx {α : Type} [LT α] [DecidableRel (α := α) (· < ·)] (a : Fin 4 → α) : Fin 4 :=
+  let i : Fin 4 := if a 0 < a 1 then 1 else 0
+  let i : Fin 4 := if a i < a 2 then 2 else i
+  if a i < a 3 then 3 else i
+
+/-- `comp = i_largest; for i in range(4): if i != i_largest: comp = (comp << 10) | (negbit << 9) | mag` -/
+def assemble (iL : Fin 4) (neg : Fin 4 → Bool) (mag : Fin 4 → Nat) : Int :=
+  ([0, 1, 2, 3] : List (Fin 4)).foldl
+    (fun comp i => if i ≠ iL then Gen.C13.cqPush comp (if neg i then 1 else 0) (mag i) else comp) (iL.val : Int)
+
+/-- exact value of `int(S * (sqrt(a2 / n) / (1/√2)) + 0.5)` for naturals `a2 ≤ n`, `n > 0`:
+the largest `m` with `(2m-1)² · n ≤ 8·S²·a2`, i.e. `(isqrt(8·S²·a2 / n) + 1) / 2`. -/
+def quatMag (S a2 n : Nat) : Nat := (Nat.sqrt (8 * S ^ 2 * a2 / n) + 1) / 2
+
+/-- `compress_quaternion(quat)` for a quaternion with integer components.
+The zero quaternion normalises to NaNs and `int(nan)` raises `ValueError`. -/
+def compressInt (v : Fin 4 → Int) : Except PyErr Int :=
+  let n := (v 0).natAbs ^ 2 + (v 1).natAbs ^ 2 + (v 2).natAbs ^ 2 + (v 3).natAbs ^ 2
+  if n = 0 then .error .valueError
+  else
+    let iL := largestIdx (fun i => (v i).natAbs)
+    let negate := decide (v iL < 0)
+    .ok (assemble iL (fun i => (decide (v i < 0)) ^^ negate)
+      (fun i => quatMag Gen.C13.cqScale.toNat ((v i).natAbs ^ 2) n))
+
+/-- one stored component as `decompress_quaternion` reads it: index, `negbit == 1`, 9-bit magnitude -/
+structure QComp where
+  idx : Nat
+  neg : Bool
+  mag : Nat
+  deriving Repr, DecidableEq
+
+/-- the loop `for i in range(3, -1, -1): if i != i_largest: mag = comp & mask; negbit = (comp >> 9) & 1; comp >>= 10` -/
+def unpackComps (iL : Nat) : List Nat → Int → List QComp
+  | [], _ => []
+  | i :: is, comp =>
+    if i ≠ iL then
+      ⟨i, Gen.C13.dqNegbit comp == 1, (Gen.C13.dqMag comp).toNat⟩ :: unpackComps iL is (Gen.C13.dqNext comp)
+    else unpackComps iL is comp
+
+/-- integer part of `decompress_quaternion(comp)` for `comp ≥ 0`: the index of the reconstructed component and the
+stored components in processing order (3 → 0).  `q[i_largest] = …` raises `IndexError` when `comp >> 30 ≥ 4`.
+The numeric part is `q[i] = ±mag/511/√2`, `q[i_largest] = √(1 - Σ q[i]²)` (`decompressR`). -/
+def decompressParts (comp : Nat) : Except PyErr (Nat × List QComp) :=
+  let iL := (Gen.C13.dqLargest comp).toNat
+  if iL < 4 then .ok (iL, unpackComps iL [3, 2, 1, 0] comp) else .error .indexError
+
+/-! ## binary64 arithmetic used by the encoders
+
+`int(coordinate * 1000)`, `int(math.degrees(a) * 10)`, `int(c * intensity / 100)`: one correctly rounded binary64
+operation on exactly known operands (IEEE-754 round-to-nearest-even of the exact rational result), then `int()`
+= truncation toward zero (`OverflowError` on an infinite product). -/
+
+structure Q where
+  num : Int
+  den : Nat
+  deriving Repr, DecidableEq
+
+/-- round-half-even of `a / d` (`d > 0`) to a natural number -/
+def rhe (a d : Nat) : Nat :=
+  let q := a / d
+  let r := a % d
+  if 2 * r < d then q else if d < 2 * r then q + 1 else if q % 2 = 0 then q else q + 1
+
+/-- `⌊log2 (a/d)⌋` for `a, d > 0` -/
+def floorLog2 (a d : Nat) : Int :=
+  if d ≤ a then (Nat.log2 (a / d) : Int) else -((Nat.log2 ((d + a - 1) / a - 1) : Int) + 1)
+
+/-- exponent of the binary64 grid around `a/d`: 53 significant bits, subnormal grid `2^-1074` at the bottom -/
+def rn64Exp (a d : Nat) : Int := max (floorLog2 a d - 52) (-1074)
+
+/-- `int(RN64(a/d))` for `a, d > 0` -/
+def truncRnPos (a d : Nat) : Except PyErr Nat :=
+  match rn64Exp a d with
+  | .ofNat k =>
+    let v := rhe a (d * 2 ^ k) * 2 ^ k
+    if v < 2 ^ 1024 then .ok v else .error .overflow
+  | .negSucc k => .ok (rhe (a * 2 ^ (k + 1)) d / 2 ^ (k + 1))
+
+/-- `int(RN64(x))`: the value is rounded to the nearest binary64 (ties to even), then truncated toward zero -/
+def truncRn (x : Q) : Except PyErr Int :=
+  match x.num with
+  | .ofNat 0 => .ok 0
+  | .ofNat (a + 1) => (truncRnPos (a + 1) x.den).map Int.ofNat
+  | .negSucc a => (truncRnPos (a + 1) x.den).map (fun n => -(n : Int))
+
+def Q.scale (x : Q) (k : Nat) : Q := ⟨x.num * k, x.den⟩
+
+/-! ## Compressed trajectories (`_CompressedBase`, `CompressedStart`, `CompressedSegment`)
+
+Coordinates are rationals `num/den` (`den > 0`; every float is one). -/
+
+/-- `int(coordinate * 1000)` -/
+def encodeSpatial (x : Q) : Except PyErr Int := truncRn (x.scale Gen.C13.spatialScale)
+
+/-- `int(math.degrees(angle_rad) * 10)`; the argument here is the value of `math.degrees(angle_rad)` -/
+def encodeYawDeg (deg : Q) : Except PyErr Int := truncRn (deg.scale Gen.C13.yawScale)
+
+/-- `CompressedStart.pack()` -/
+def packStart (x y z yawDeg : Q) : Except PyErr (List UInt8) := do
+  let ex ← encodeSpatial x
+  let ey ← encodeSpatial y
+  let ez ← encodeSpatial z
+  let ew ← encodeYawDeg yawDeg
+  pack (parseFmt! Gen.C13.startFmt) [.int ex, .int ey, .int ez, .int ew]
+
+/-- `CompressedSegment._pack_element(map(enc, element))` -/
+def packElement (enc : Q → Except PyErr Int) : List Q → Except PyErr (List UInt8)
+  | [] => .ok []
+  | p :: ps => do
+    let v ← enc p
+    let a ← pack (parseFmt! Gen.C13.segElemFmt) [.int v]
+    let r ← packElement enc ps
+    pure (a ++ r)
+
+/-- `CompressedSegment._validate` (raises a plain `Exception`) -/
+def validLen (n : Nat) : Bool := !(n != 0 && n != 1 && n != 3 && n != 7)
+
+def encodeType (n : Nat) : Except PyErr Int :=
+  match Gen.C13.segEncodeType n with
+  | .int v => .ok v
+  | _ => .error .typeError            -- `None << 0`
+
+/-- `CompressedSegment(duration, x, y, z, yaw).pack()` (constructor validation included) -/
+def packSegment (duration : Q) (x y z yawDeg : List Q) : Except PyErr (List UInt8) :=
+  if !(validLen x.length && validLen y.length && validLen z.length && validLen yawDeg.length) then .error .other
+  else do
+    let tx ← encodeType x.length
+    let ty ← encodeType y.length
+    let tz ← encodeType z.length
+    let tw ← encodeType yawDeg.length
+    let dur ← truncRn (duration.scale Gen.C13.durationScale)
+    let head ← pack (parseFmt! Gen.C13.segHeadFmt) [.int (Gen.C13.segTypes tx ty tz tw), .int dur]
+    let ex ← packElement encodeSpatial x
+    let ey ← packElement encodeSpatial y
+    let ez ← packElement encodeSpatial z
+    let ew ← packElement encodeYawDeg yawDeg
+    pure (head ++ ex ++ ey ++ ez ++ ew)
+
+/-! ## LED ring (`LEDDriverMemory.write_data`, `LEDTimingsDriverMemory.write_data`) -/
+
+structure Led where
+  r : Int
+  g : Int
+  b : Int
+  intensity : Nat
+  deriving Repr, DecidableEq
+
+/-- `int(<5/6-bit component> * led.intensity / 100)`: an exact integer product, a correctly rounded true division
+(a float), `int()` truncation.  (`led_scale_is_div`: on the LED range this is plain integer division.) -/
+def scaleComp (c : Int) (intensity div : Nat) : Except PyErr Int := truncRn ⟨c * intensity, div⟩
+
+def led565 (l : Led) : Except PyErr Int := do
+  let r5 ← scaleComp (Gen.C13.ledR5 l.r) l.intensity Gen.C13.ledR5Divisor
+  let g6 ← scaleComp (Gen.C13.ledG6 l.g) l.intensity Gen.C13.ledG6Divisor
+  let b5 ← scaleComp (Gen.C13.ledB5 l.b) l.intensity Gen.C13.ledB5Divisor
+  pure (Gen.C13.ledPack r5 g6 b5)
+
+/-- `bytearray(iterable of ints)`: every item must be in `range(256)` (else `ValueError`) -/
+def toBytes : List Int → Except PyErr (List UInt8)
+  | [] => .ok []
+  | .ofNat n :: r => if n < 256 then (toBytes r).map (UInt8.ofNat n :: ·) else .error .valueError
+  | .negSucc _ :: _ => .error .valueError
+
+/-- the body of the loop: `data += bytearray((tmp >> 8, tmp & 0xFF))` -/
+def ledBytes (l : Led) : Except PyErr (List UInt8) := do
+  let tmp ← led565 l
+  toBytes [Gen.C13.ledHi tmp, Gen.C13.ledLo tmp]
+
+/-- the `data` that `LEDDriverMemory.write_data` hands to the memory writer -/
+def ledWriteData : List Led → Except PyErr (List UInt8)
+  | [] => .ok []
+  | l :: ls => do
+    let a ← ledBytes l
+    let r ← ledWriteData ls
+    pure (a ++ r)
+
+structure Timing where
+  time : Int
+  r : Int
+  g : Int
+  b : Int
+  leds : Int
+  fade : Bool
+  rotate : Int
+  deriving Repr, DecidableEq
+
+def timing565 (t : Timing) : Int :=
+  Gen.C13.ledtPack (Gen.C13.ledtR5 t.r) (Gen.C13.ledtG6 t.g) (Gen.C13.ledtB5 t.b)
+
+def timingInts : List Timing → List Int
+  | [] => Gen.C13.ledtTerminator
+  | t :: ts =>
+    let led := timing565 t
+    let extra := Gen.C13.ledtExtra t.leds (if t.fade then 1 else 0) t.rotate
+    (if Gen.C13.ledtKeep t.time led extra then Gen.C13.ledtEntry t.time led extra else []) ++ timingInts ts
+
+/-- the `data` that `LEDTimingsDriverMemory.write_data` hands to the memory writer -/
+def timingsWriteData (ts : List Timing) : Except PyErr (List UInt8) := toBytes (timingInts ts)
+
+/-! ## Localization packets (`Localization._incoming`, `_decode_lh_angle`) -/
+
+/-- a sweep angle as the decoder computes it: the base angle (a binary32 value) or
+`base - fp16_to_float(raw)` (a binary64 subtraction of the two values, kept symbolic) -/
+inductive Angle
+  | base (bits : Nat)
+  | sub (baseBits : Nat) (offset : Num)
+  deriving Repr, DecidableEq
+
+inductive Decoded
+  | none
+  | ranges (d : List (Nat × Nat))       -- dict anchor id ↦ binary32 distance, in insertion order
+  | persist (b : Bool)
+  | lhAngle (basestation : Nat) (x y : List Angle)
+  deriving Repr, DecidableEq
+
+inductive Incoming
+  | dropped                              -- logged, no callback
+  | packet (type : Nat) (data : List UInt8) (decoded : Decoded)     -- receivedLocationPacket.call(pk)
+  deriving Repr, DecidableEq
+
+/-- `d[k] = v` on an insertion-ordered dict -/
+def dictSet (d : List (Nat × Nat)) (k v : Nat) : List (Nat × Nat) :=
+  if d.any (·.1 == k) then d.map (fun e => if e.1 == k then (k, v) else e) else d ++ [(k, v)]
+
+/-- `for i in range(len(data)/5): anchor_id, distance = struct.unpack('<Bf', raw_data[:5]); …; raw_data = raw_data[5:]` -/
+def decodeRanges : Nat → List UInt8 → List (Nat × Nat) → Except PyErr (List (Nat × Nat))
+  | 0, _, d => .ok d
+  | n + 1, raw, d =>
+    match unpack (parseFmt! (Gen.C13.incFmts.getD 1 "")) (raw.take 5) with
+    | .ok [.int a, .flt dist] => decodeRanges n (raw.drop 5) (dictSet d a.toNat dist)
+    | .ok _ => .error .valueError            -- tuple unpacking arity
+    | .error e => .error e
+
+def angleSub (baseBits : Nat) (raw : Int) : Except PyErr Angle :=
+  (fp16ToFloat raw).map (Angle.sub baseBits)
+
+/-- `_decode_lh_angle(data)` -/
+def decodeLhAngle (data : List UInt8) : Except PyErr Decoded :=
+  match unpack (parseFmt! Gen.C13.lhFmt) data with
+  | .ok [.int bs, .flt bx, .int x1, .int x2, .int x3, .flt by_, .int y1, .int y2, .int y3] => do
+    let ax1 ← angleSub bx x1
+    let ax2 ← angleSub bx x2
+    let ax3 ← angleSub bx x3
+    let ay1 ← angleSub by_ y1
+    let ay2 ← angleSub by_ y2
+    let ay3 ← angleSub by_ y3
+    pure (.lhAngle bs.toNat [.base bx, ax1, ax2, ax3] [.base by_, ay1, ay2, ay3])
+  | .ok _ => .error .indexError
+  | .error e => .error e
+
+/-- `Localization._incoming(packet)` on `packet.data` -/
+def incoming (pdata : List UInt8) : Except PyErr Incoming :=
+  if pdata.length < 1 then .ok .dropped
+  else
+    match unpack (parseFmt! (Gen.C13.incFmts.getD 0 "")) (pdata.take 1) with
+    | .ok [.int t] =>
+      let t := t.toNat
+      let data := pdata.drop 1
+      if t = Gen.C13.locRangeStreamReport then
+        if data.length % 5 ≠ 0 then .ok .dropped
+        else (decodeRanges (data.length / 5) data []).map (fun d => .packet t data (.ranges d))
+      else if t = Gen.C13.locLhPersistData then
+        match data with
+        | [] => .error .indexError
+        | b :: _ => .ok (.packet t data (.persist (b ≠ 0)))
+      else if t = Gen.C13.locLhAngleStream then
+        (decodeLhAngle data).map (fun d => .packet t data d)
+      else .ok (.packet t data .none)
+    | .ok _ => .error .indexError
+    | .error e => .error e
 
 end CfVerif.C13
